@@ -67,10 +67,13 @@ unsafe impl GlobalAlloc for Counting {
 #[global_allocator]
 static A: Counting = Counting;
 
-fn reset_counters() {
+/// returns the number of bytes live at the start of the measured region
+fn reset_counters() -> usize {
     TOTAL.store(0, Ordering::Relaxed);
     NALLOC.store(0, Ordering::Relaxed);
-    PEAK.store(CUR.load(Ordering::Relaxed), Ordering::Relaxed);
+    let base = CUR.load(Ordering::Relaxed);
+    PEAK.store(base, Ordering::Relaxed);
+    base
 }
 
 // ---------------------------------------------------------------- helpers
@@ -99,6 +102,7 @@ static LAST_PANIC: Mutex<String> = Mutex::new(String::new());
 struct Opts {
     post: Post,
     json: bool,
+    big_kib: usize,
 }
 
 fn u16s(v: Option<&Value>) -> Vec<u16> {
@@ -268,15 +272,24 @@ fn worker_loop(o: Opts) {
                         Err(_) => json!({"e": "panic", "p": p, "where": "flat", "msg": LAST_PANIC.lock().unwrap().clone()}),
                     }
                 } else {
-                    reset_counters();
+                    let base = reset_counters();
                     let r = catch_unwind(AssertUnwindSafe(|| np.parse_bytes(&buf)));
                     let total = TOTAL.load(Ordering::Relaxed);
-                    let peak = PEAK.load(Ordering::Relaxed).saturating_sub(CUR.load(Ordering::Relaxed));
+                    let peak = PEAK.load(Ordering::Relaxed).saturating_sub(base);
+                    let held = CUR.load(Ordering::Relaxed).saturating_sub(base);
                     let nalloc = NALLOC.load(Ordering::Relaxed);
                     match r {
                         Ok(res) => {
-                            let held: usize = 0;
-                            let _ = held;
+                            // first line: what the library did (written before the result is projected, so
+                            // that a harness that runs out of memory while projecting is not blamed on it)
+                            let alloc = json!({"total_kib": ((total + 1023) / 1024) as u64, "peak_kib": ((peak + 1023) / 1024) as u64,
+                                               "held_kib": ((held + 1023) / 1024) as u64, "n": nalloc as u64});
+                            writeln!(out, "{}", json!({"e": "parsed", "p": p, "alloc": alloc, "nout": res.len() as u64, "buflen": buf.len() as u64})).ok();
+                            out.flush().ok();
+                            if held > o.big_kib * 1024 {
+                                drop(res);
+                                json!({"e": "retbig", "p": p, "caches": caches(&ps), "alloc": alloc})
+                            } else {
                             let items: Vec<Value> = res.iter().map(|x| project::item(x, o.post)).collect();
                             let js = if o.json {
                                 let a = catch_unwind(AssertUnwindSafe(|| serde_json::to_string(&res)));
@@ -294,9 +307,8 @@ fn worker_loop(o: Opts) {
                             } else {
                                 json!({"st": "off", "wellformed": false, "twice_equal": false, "len_kib": 0, "sha": "", "text": ""})
                             };
-                            json!({"e": "ret", "p": p, "out": items, "caches": caches(&ps),
-                                   "alloc": {"total_kib": ((total + 1023) / 1024) as u64, "peak_kib": ((peak + 1023) / 1024) as u64, "n": nalloc as u64},
-                                   "json": js})
+                            json!({"e": "ret", "p": p, "out": items, "caches": caches(&ps), "alloc": alloc, "json": js})
+                            }
                         }
                         Err(_) => json!({"e": "panic", "p": p, "where": "parse_bytes", "msg": LAST_PANIC.lock().unwrap().clone()}),
                     }
@@ -324,6 +336,7 @@ fn worker_main(args: &[String]) {
     let mut json = false;
     let mut stack_kib = 2048usize;
     let mut mem_mib = 4096u64;
+    let mut big_kib = 200 * 1024usize;
     let mut i = 0;
     while i < args.len() {
         match args[i].as_str() {
@@ -331,6 +344,7 @@ fn worker_main(args: &[String]) {
                 for w in args[i + 1].split(',') {
                     match w {
                         "export" => post.export = true,
+                        "export1" => post.export1 = true,
                         "common" => post.common = true,
                         "json" => json = true,
                         _ => {}
@@ -340,6 +354,10 @@ fn worker_main(args: &[String]) {
             }
             "--stack-kib" => {
                 stack_kib = args[i + 1].parse().unwrap_or(2048);
+                i += 1;
+            }
+            "--big-kib" => {
+                big_kib = args[i + 1].parse().unwrap_or(200 * 1024);
                 i += 1;
             }
             "--mem-mib" => {
@@ -369,7 +387,7 @@ fn worker_main(args: &[String]) {
     }));
     let h = std::thread::Builder::new()
         .stack_size(stack_kib * 1024)
-        .spawn(move || worker_loop(Opts { post, json }))
+        .spawn(move || worker_loop(Opts { post, json, big_kib }))
         .expect("spawn");
     h.join().ok();
 }
@@ -379,6 +397,7 @@ struct Worker {
     child: Child,
     stdin: ChildStdin,
     rx: Receiver<Option<String>>,
+    err: std::sync::Arc<Mutex<String>>,
 }
 
 fn spawn_worker(pass: &[String]) -> Worker {
@@ -388,11 +407,24 @@ fn spawn_worker(pass: &[String]) -> Worker {
         .args(pass)
         .stdin(Stdio::piped())
         .stdout(Stdio::piped())
-        .stderr(Stdio::null())
+        .stderr(Stdio::piped())
         .spawn()
         .expect("spawn worker");
     let stdin = child.stdin.take().unwrap();
     let stdout = child.stdout.take().unwrap();
+    let stderr = child.stderr.take().unwrap();
+    let err = std::sync::Arc::new(Mutex::new(String::new()));
+    let err2 = err.clone();
+    std::thread::spawn(move || {
+        for l in BufReader::new(stderr).lines().map_while(Result::ok) {
+            let mut g = err2.lock().unwrap();
+            if g.len() > 2000 {
+                g.clear();
+            }
+            g.push_str(&l);
+            g.push('\n');
+        }
+    });
     let (tx, rx) = channel();
     std::thread::spawn(move || {
         let r = BufReader::with_capacity(1 << 20, stdout);
@@ -408,7 +440,7 @@ fn spawn_worker(pass: &[String]) -> Worker {
         }
         tx.send(None).ok();
     });
-    Worker { child, stdin, rx }
+    Worker { child, stdin, rx, err }
 }
 
 fn run_main(args: &[String]) -> i32 {
@@ -461,6 +493,17 @@ fn run_main(args: &[String]) -> i32 {
         } else {
             w.rx.recv_timeout(Duration::from_millis(timeout_ms))
         };
+        // a call answers with two lines: `parsed` (the library returned) and `ret` (the projected result)
+        let mut parsed = false;
+        let reply = match reply {
+            Ok(Some(l)) if l.starts_with("{\"alloc\"") && l.contains("\"e\":\"parsed\"") => {
+                writeln!(tr, "{}", l).ok();
+                tr.flush().ok();
+                parsed = true;
+                w.rx.recv_timeout(Duration::from_millis(timeout_ms * 4))
+            }
+            other => other,
+        };
         match reply {
             Ok(Some(l)) => {
                 let is_panic = l.starts_with("{\"e\":\"panic\"");
@@ -474,6 +517,14 @@ fn run_main(args: &[String]) -> i32 {
                     w = spawn_worker(&pass);
                 }
             }
+            _ if parsed => {
+                // the library had returned; the harness itself failed while projecting the result
+                w.child.kill().ok();
+                w.child.wait().ok();
+                writeln!(tr, "{}", json!({"e": "toolcrash", "p": op.get("p").cloned().unwrap_or(json!("A"))})).ok();
+                skipping = true;
+                w = spawn_worker(&pass);
+            }
             Ok(None) | Err(RecvTimeoutError::Disconnected) => {
                 let st = w.child.wait().ok();
                 #[cfg(unix)]
@@ -482,8 +533,14 @@ fn run_main(args: &[String]) -> i32 {
                     st.and_then(|s| s.signal()).unwrap_or(0)
                 };
                 let code = st.and_then(|s| s.code()).unwrap_or(-1);
+                std::thread::sleep(Duration::from_millis(20));
+                let last = w.err.lock().unwrap().clone();
+                // Rust's allocation-error handler prints this line before aborting
+                let oom = last.contains("memory allocation of") && last.contains("failed");
+                let overflow = last.contains("overflowed its stack") || last.contains("stack overflow");
                 writeln!(tr, "{}", json!({"e": "crash", "p": op.get("p").cloned().unwrap_or(json!("A")),
-                    "signal": sig, "code": code, "during": kind})).ok();
+                    "signal": sig, "code": code, "during": kind,
+                    "cause": if oom { "oom" } else if overflow { "stack-overflow" } else { "other" }})).ok();
                 ncrash += 1;
                 skipping = true;
                 w = spawn_worker(&pass);
